@@ -30,6 +30,7 @@ CONSTANTS
   Record = FALSE
   ReadOnly = FALSE
   AckSplit = FALSE
+  HoldCb = FALSE
   RM = TRUE
   Slots = 3
   RmUuids = {1, 2}
